@@ -247,7 +247,7 @@ func (w *c08World) fresh(baseLen int) *c08Inst {
 func (in *c08Inst) close() {
 	in.st.xorTreeRepair.ticker.Stop()
 	_ = in.st.Shutdown()
-	ctx, cancel := context.WithTimeout(c08ctx, 5*time.Minute)
+	ctx, cancel := context.WithTimeout(c08ctx, time.Minute)
 	defer cancel()
 	if err := in.inner.Close(ctx); err != nil {
 		// the store is leaked; nothing is judged by this
